@@ -46,7 +46,9 @@ SMeta == /\ l <= Len(Rec) /\ Rec[l].ev = "smeta" /\ l' = l + 1
          /\ Tab.stream[Rec[l].key] = Rec[l].value
 Win == /\ l <= Len(Rec) /\ Rec[l].ev = "win" /\ l' = l + 1
        /\ Tab.windows[Rec[l].stream][Rec[l].index] = Rec[l].toks
-Next == Sel \/ USel \/ Meta \/ SMeta \/ Win
+\* under the default condition the engine's trajectories are those of parameter generation on exactly these Gaussians (digests)
+Handoff == /\ l <= Len(Rec) /\ Rec[l].ev = "handoff" /\ l' = l + 1 /\ Rec[l].equal
+Next == Sel \/ USel \/ Meta \/ SMeta \/ Win \/ Handoff
 Spec == Init /\ [][Next]_l
 Accepted == IF TLCGet("stats").diameter - 1 = Len(Rec) THEN TRUE
             ELSE Print(<<"REJECT at", TLCGet("stats").diameter>>, FALSE)
